@@ -161,34 +161,43 @@ def constants(L, R, qs):
                  key='Q%d_CRT_CST' % (k + 1))
         else:
             R.ob('crt-constant-is-the-inverse', 'Q%d_CRT_CST' % (k + 1), 'holds')
-    # the CRT constants actually used by the lift, and the sign offsets used by b_from_znx64: read from the value DAGs
+    # int64 -> residue lanes: lane_k(x) = x (mod q_k) for every int64 x, decided by a sign-case split of the symbolic lane
     K = KERNELS('quick')
     box = KBox(L)
     r1 = box.instantiate('q120_b_from_znx64_simple', K['q120_b_from_znx64_simple'], {'nn': 1}, 'accel', expand='values')
     st = final_state(r1, ('out',)).get('res', {})
     for k in range(4):
         v = st.get(8 * k, (8, None))[1]
-        ok = False
-        why = 'unrecognised expression %s' % fmt(v)[:120]
-        if isinstance(v, Sym) and v.e[0] == 'add':
-            lo, s = v.e[2], v.e[3]
-            if isinstance(s, Sym) and s.e[0] != 'sel':
-                lo, s = s, lo
-            if (isinstance(lo, Sym) and lo.e[0] == 'and' and (1 << 63) - 1 in lo.e[2:4] and isinstance(s, Sym) and s.e[0] == 'sel'):
-                cands = [x for x in s.e[2:4] if is_int(x)]
-                if len(cands) == 2 and 0 in cands:
-                    oq = max(cands)
-                    if (oq + (1 << 63)) % qs[k] == 0:
-                        ok = True
-                    else:
-                        why = 'sign offset %d: (offset + 2^63) mod q%d = %d' % (oq, k + 1, (oq + (1 << 63)) % qs[k])
-        if ok:
-            R.ob('int64-to-residue-lane-is-congruent', 'q120_b_from_znx64_simple lane %d' % k, 'holds')
-        elif why.startswith('unrecognised'):
-            R.ob('int64-to-residue-lane-is-congruent', 'q120_b_from_znx64_simple lane %d' % k, 'unknown', detail=why)
+        bad = None
+        if v is None:
+            bad = 'lane not written'
         else:
-            R.ob('int64-to-residue-lane-is-congruent', 'q120_b_from_znx64_simple lane %d' % k, 'refuted', detail=why,
-                 key='q120_b_from_znx64_simple:lane%d' % k)
+            for s in (0, 1):
+                lo, hi = ((0, (1 << 63) - 1), (1 << 63, (1 << 64) - 1))[s]
+                I = Intervals(lambda nm, off, size, lo=lo, hi=hi: (lo, hi) if nm == 'x' else (0, (1 << (8 * size)) - 1), fmt)
+
+                def rng(t, I=I):
+                    r_ = I.ev_all([t])[0]
+                    return r_
+
+                def bound(t, I=I):
+                    r_ = I.ev_all([t])[0]
+                    return r_[1] if r_ is not None and r_[0] >= 0 else None
+
+                mp = ModPoly(qs[k], None, bound, rng)
+                p = mp.of(v)
+                # the mathematical input is u - 2^64*s where u is the unsigned reading of the coefficient
+                want = mp.add(mp.of(sym('in', 'x', 0, 8)), {(): (1 << 64) % qs[k]}, -s)
+                if I.findings:
+                    bad = bad or '%s coefficient: %s' % ('negative' if s else 'non-negative', repr(I.findings[0])[:200])
+                elif p != want:
+                    bad = bad or 'for %s coefficients lane %d is %s, the input is %s (mod q%d)' % (
+                        'negative' if s else 'non-negative', k, mp.show(p), mp.show(want), k + 1)
+        subj = 'q120_b_from_znx64_simple lane %d' % k
+        if bad:
+            R.ob('int64-to-residue-lane-is-congruent', subj, 'refuted', detail=bad, key='q120_b_from_znx64_simple:lane%d' % k)
+        else:
+            R.ob('int64-to-residue-lane-is-congruent', subj, 'holds')
 
 
 def module_level(L, R, tier):
